@@ -235,7 +235,8 @@ IN_LINE_LOOP = CURSOR + OPENED + ["self.markup_start < self.line_start and self.
 IN_BLOCK_COMMENT = ["self.start <= self.pos and self.pos <= len(self.source)"] + OPENED + ["len(self.expression) == 0"] + NO_LINES
 # every position an error carries lies inside the source (an error raised without a token carries no position:
 # Lexer.backup() at the very end of the input)
-ERR_INSIDE = {"LiquidSyntaxError": ["exc.token is None or (0 <= exc.token.index and exc.token.index <= len(self.source))"]}
+# every position carried by a raised error lies within the source: the error token's start AND its stop (start + len(value))
+ERR_INSIDE = {"LiquidSyntaxError": ["exc.token is None or (0 <= exc.token.index and exc.token.index + len(exc.token.value) <= len(self.source))"]}
 
 
 def _conj(cl):
@@ -341,7 +342,8 @@ contract(
     params={"self": LEXER(), "msg": Str},
     pre=["0 <= self.start and self.start <= self.pos and self.pos <= len(self.source)"],
     post=["False"],   # never returns
-    post_exc={"LiquidSyntaxError": ["exc.token.index == self.pos", "0 <= exc.token.index and exc.token.index <= len(self.source)"]},
+    # the error token spans text of the source: it starts at or after 0 and ends (start + its text) at or before the end
+    post_exc={"LiquidSyntaxError": ["0 <= exc.token.index", "exc.token.index + len(exc.token.value) <= len(self.source)"]},
     raises={"LiquidSyntaxError": "True"},
 )
 
